@@ -626,7 +626,7 @@ def run(ctx):
                     why = ('cleanup_old_wal_files removes a covered log, never the active one (skipped by name %r)' % active_tpl_txt) if skip else \
                           'cleanup_old_wal_files can delete the ACTIVE log: the skip on its file name does not dominate the removal'
                 ctx.ob('FS-WRITERS', key, ok, cs.where(), why if ok else (why + ' — a file that may hold the only copy of acknowledged records'), entry=b.root)
-    ctx.floor('FS-WRITERS', 9)
+    ctx.floor('FS-WRITERS', 6)
 
     # ------------------------------------------------------------------ 9. replay understands everything the APIs log
     # For every record type a mutating API writes (discovered: TransactionType variants constructed outside the derived
